@@ -462,7 +462,7 @@ static std::string run_work(const std::string &fam, unsigned long k)
     }
     if (fam == "prime") {
         RCP<const Integer> a = integer(zabs(rand_z(r, 70)));
-        o << probab_prime_p(*a) << " " << istr(nextprime(*a));
+        o << (probab_prime_p(*a) != 0) << " " << istr(nextprime(*a)); // 1 "probably" / 2 "certainly" both mean prime
         unsigned long n = 2 + r.below(2000000);
         RCP<const Integer> m = integer((long)n);
         std::vector<RCP<const Integer>> pf;
